@@ -7,7 +7,7 @@ PROPERTY = 'C07'
 
 
 def cfg_for(lf: int, tier: str) -> dict:
-    cap = {2: 8, 3: 10, 4: 12, 5: 13, 7: 16}.get(lf, 3 * lf)
+    cap = {2: 8, 3: 10, 4: 12, 5: 13, 7: 14}.get(lf, 3 * lf)
     if tier == 'quick':
         cap = {2: 7, 3: 9, 4: 10}.get(lf, cap)
     return {
